@@ -94,6 +94,17 @@ def run(chk):
     tasks = [("Sphere", lambda c: CT.curved_is_inside(c, shapes, "Sphere")),
              ("Ellipsoid", lambda c: CT.curved_is_inside(c, shapes, "Ellipsoid")),
              ("ConvexPolyhedron", lambda c: convex_polyhedron(c, shapes))]
+    from . import c05_winding as W
+    chk.trusted += [
+        "ray-crossing characterisation of the winding number: for a closed oriented triangulated surface, a point p off the surface and a "
+        "line through p that meets no edge, the signed crossings of the line with the triangles sum to twice the winding number about p "
+        "(+-1 inside, 0 outside a simple closed surface); a linear map of determinant 1 fixing p leaves it unchanged",
+        "assumed contract of the surface triangulation handed to Polyhedron.is_inside (polytri, C02) and of the index map built from "
+        "coordinate tuples: `triangles` lists every triangle of every face once, with the face's orientation",
+    ]
+    for mode in ("batch", "single"):
+        tasks.append((f"Polyhedron-{mode}", lambda c, mode=mode: c.section(
+            f"Polyhedron.is_inside[{mode}]", "coxeter.shapes.polyhedron::Polyhedron.is_inside", lambda: W.polyhedron_is_inside(c, shapes, ld, mode))))
     chk.run_parallel(tasks)
     from .bounded_c05 import run_bounded
     run_bounded(chk)
